@@ -328,6 +328,35 @@ fn fam_all_props(ctx: &CaseCtx, cov: &mut Cov) -> CaseOut {
     out
 }
 
+/// the smallest streams there are: nothing at all, one literal, two literals, a literal and a
+/// short repeat - every (lc, lp, pb), every termination style, every reader shape in turn
+fn fam_tiny(ctx: &CaseCtx, cov: &mut Cov) -> CaseOut {
+    let mut out = CaseOut::default();
+    let i = ctx.index as usize;
+    let props = all_props()[i % 225];
+    let shape = (i / 225) % 4;
+    let b = (i as u8).wrapping_mul(37);
+    let prog: Vec<Sym> = match shape {
+        0 => vec![],
+        1 => vec![Sym::Lit(b)],
+        2 => vec![Sym::Lit(b), Sym::Lit(b ^ 0xFF)],
+        _ => vec![Sym::Lit(b), Sym::ShortRep],
+    };
+    let term = TERMS[(i / 900 + i) % TERMS.len()];
+    let pc = PositiveCase {
+        props,
+        prog: &prog,
+        term,
+        dict: if term.is_raw() { [1u32, 32, 4096][i % 3] } else { [0u32, 1, 4096, 0xFFFF_FFFF][i % 4] },
+        reader: ReaderKind::from_selector(i as u64 / 7),
+        max_dist: 1,
+    };
+    cov.name(["tiny.empty", "tiny.one_literal", "tiny.two_literals", "tiny.literal_shortrep"][shape], 1);
+    let n = check_positive(&pc, "tiny", &mut out, cov, ctx, true);
+    out.sample = n.map(|n| sample_of(&pc, n));
+    out
+}
+
 fn random_props(rng: &mut Rng) -> Props {
     if rng.chance(1, 3) {
         // the settings real encoders use
@@ -765,6 +794,7 @@ pub fn monitor(tier: Tier) -> Monitor {
         families: vec![
             Family { name: "corners", count: 84 * 8, priority: true, enumerated: true, run: fam_corners },
             Family { name: "all_props", count: tier.pick(225, 225 * 4), priority: true, enumerated: false, run: fam_all_props },
+            Family { name: "tiny", count: tier.pick(900 * 2, 900 * 7), priority: true, enumerated: false, run: fam_tiny },
             Family { name: "wrap", count: tier.pick(3000, 60_000), priority: false, enumerated: false, run: fam_wrap },
             Family { name: "random", count: tier.pick(30_000, 1_500_000), priority: false, enumerated: false, run: fam_random },
             Family { name: "liblzma", count: tier.pick(1500, 40_000), priority: false, enumerated: false, run: fam_liblzma },
